@@ -57,6 +57,19 @@ def _build(case, inplace):
                   current_overbound=case["cob"], spike_overbound=case["sob"],
                   batch_size=case["batch"], inplace=inplace)
     shape = tuple(case["shape"])
+    if case.get("via_partial"):
+        # the path every connection uses: Synapse.partialconstructor(...)(shape, step_time, delay, batch_size)
+        pk = dict(interp_tol=case["tol"], current_overbound=case["cob"], spike_overbound=case["sob"], inplace=inplace)
+        if kind == "delta":
+            ctor = DeltaCurrent.partialconstructor(case["q"], interp_mode=case["mode"], **pk)
+        elif kind == "deltaplus":
+            ctor = DeltaPlusCurrent.partialconstructor(case["q"], interp_mode=case["mode"], **pk)
+        elif kind == "singleexp":
+            ctor = SingleExponentialCurrent.partialconstructor(case["q"], case["tau"], spike_interp_mode=case["mode"], **pk)
+        else:
+            ctor = DoubleExponentialCurrent.partialconstructor(case["q"], case["tau_d"], case["tau_r"],
+                                                               spike_interp_mode=case["mode"], **pk)
+        return ctor(shape, dt, delay, case["batch"])
     if kind == "delta":
         return DeltaCurrent(shape, dt, interp_mode=case["mode"], **common)
     if kind == "deltaplus":
@@ -398,6 +411,7 @@ def syn_case(draw, kind, tier="quick"):
     q = draw(st.sampled_from([1.0, 2.0, -2.0, 0.5, 3.0, 1.3]))
     case = {"cls": kind, "dt": dt, "delay_k": delay_k, "shape": shape, "batch": batch, "q": q,
             "mode": draw(st.sampled_from(["previous", "nearest"])), "tol": tol,
+            "via_partial": draw(st.booleans()),
             "cob": draw(st.sampled_from([0.0, -7.5, None])),
             "sob": draw(st.sampled_from([False, True, None])),
             "f64": draw(st.integers(0, 6)) == 0}
